@@ -1,4 +1,4 @@
-CONSTANTS MaxConn = 3  Reqs = {1, 2, 3}  Fix = FALSE  RedialFirst = TRUE
+CONSTANTS MaxConn = 3  Reqs = {1, 2, 3}  Fix = FALSE  RedialFirst = TRUE  MaxRestart = 0  MaxInFlight = 3  Mut = "none"
 SPECIFICATION Spec
 INVARIANTS TypeOK NoWriteOnKnownDead HealthyNotMarkedClosed NoStranding
 CHECK_DEADLOCK FALSE
